@@ -84,16 +84,48 @@ class MemFS:
                 return self.realpath(tgt + ("/" + rest if rest else ""), _depth + 1)
         return cur or "/"
 
+    def _walkable(self, p, _depth=0):
+        """as the kernel walks a path: every component that is followed by another one (also by '..') must be an
+        existing directory - 'nodir/../x.h' leads nowhere if nodir does not exist"""
+        p = str(p)
+        if not p.startswith("/"):
+            p = posixpath.join(self.cwd, p)
+        if _depth > 40:
+            return False
+        cur = ""
+        parts = [x for x in p.split("/") if x]
+        for i, part in enumerate(parts):
+            if part == ".":
+                continue
+            if part == "..":
+                cur = posixpath.dirname(cur) if cur else ""
+                continue
+            cur = cur + "/" + part
+            last = i == len(parts) - 1
+            if cur in self.links:
+                tgt = self.links[cur]
+                if not tgt.startswith("/"):
+                    tgt = posixpath.dirname(cur) + "/" + tgt
+                rest = "/".join(parts[i + 1:])
+                return self._walkable(tgt + ("/" + rest if rest else ""), _depth + 1)
+            if not last and cur not in self.dirs:
+                return False
+        return True
+
     def isfile(self, p):
+        if not self._walkable(p):
+            return False
         r = self.realpath(p)
         if r in self.files:
             return self.maybe.get(r, True)
         return False
 
     def isdir(self, p):
-        return self.realpath(p) in self.dirs
+        return self._walkable(p) and self.realpath(p) in self.dirs
 
     def exists(self, p):
+        if not self._walkable(p):
+            return False
         r = self.realpath(p)
         if r in self.files:
             return self.maybe.get(r, True)
